@@ -16,6 +16,8 @@ CONSTANTS
   MaxHist = 30
   MaxDirect = 1
   MaxUnwanted = 1
+  IdwAhead = 1
+  IdwPerHb = 2
   ExcludeSource = TRUE
   EarlyReturn = FALSE
   FanoutUnfiltered = FALSE
